@@ -85,10 +85,20 @@ func scenarioFor(pd *PropDef, base uint64, worker, index int, tier string) *Scen
 		// half of the thorough workers sweep fault positions over shared workloads
 		S := pd.SweepN
 		r := NewPRNG(Mix(base, pd.Num, uint64(worker), uint64(index/S), 0x5eeb))
-		return pd.Sweep(r, index%S, S)
+		return plainErrDraw(pd.Sweep(r, index%S, S), Mix(base, pd.Num, uint64(worker), uint64(index), 0x91a1))
 	}
 	r := NewPRNG(Mix(base, pd.Num, uint64(worker), uint64(index)))
-	return pd.Gen(r, tier)
+	return plainErrDraw(pd.Gen(r, tier), Mix(base, pd.Num, uint64(worker), uint64(index), 0x91a1))
+}
+
+// plainErrDraw makes the injected error of operation faults a plain error (not a net.Error) in a
+// quarter of the runs. The draw comes from its own stream so that the generators' streams, and with
+// them every other field of the scenario, stay what they were; it is recorded in the scenario.
+func plainErrDraw(scn *Scenario, h uint64) *Scenario {
+	if scn != nil && h%4 == 0 {
+		scn.Sched.PlainErr = true
+	}
+	return scn
 }
 
 // judge runs a scenario and the property's oracle.
